@@ -14,6 +14,7 @@ package raft
 //                           a crash and a snapshot install at EVERY position
 //   TestVerif_C09_LeaderLog the log is produced by a real single-node raft leader running
 //                           real transactions; the verdict it gave its client is the reference
+//                           (read-only transactions come and go between the writers' steps)
 //   TestVerif_C09_LeaderSizes the real leader over a fixed matrix {entry size class: small ..
 //                           several raft chunks .. max_entry_size} x {read set untouched / invalidated
 //                           in four ways} x {transaction, plain put/delete}; the reference is a serial
@@ -82,6 +83,8 @@ const (
 	c09ClassLeaderList  = "C09-leader-list-verification-entry-never-holds"
 	c09ClassLeaderErr   = "C09-leader-commit-error-class"
 	c09ClassCrashAtomic = "C09-crash-inside-apply-state-not-replay-of-resume-index"
+	c09ClassInstallDiff = "C09-snapshot-install-state-differs-from-source"
+	c09ClassStaleSnap   = "C09-late-local-snapshot-rewinds-applied-index"
 )
 
 // ---------------------------------------------------------------------------
@@ -735,7 +738,8 @@ func c09Encode(c *c09Cmd) []byte {
 
 type c09Event struct {
 	Ord  int    `json:"before_entry"` // executed when exactly Ord entries have been delivered
-	Kind string `json:"kind"`         // restart | crash | install | localsnap
+	Kind string `json:"kind"`         // restart | crash | install | localsnap | localsnap-late
+	Back int    `json:"snapshot_index_fixed_entries_ago,omitempty"`
 }
 
 type c09Reset struct {
@@ -920,6 +924,7 @@ func c09Drive(env *c09Env, l *c09Log, plan c09Plan, rng *kit.Rand, snaps map[int
 	}
 
 	pos, evi, cuti := 0, 0, 0
+	since := 0  // ordinal of the first entry this incarnation of the replica was handed
 	armed := "" // "pre" | "post": crash seam inside the next ApplyBatch
 	for {
 		// events scheduled at this position
@@ -980,6 +985,7 @@ func c09Drive(env *c09Env, l *c09Log, plan c09Plan, rng *kit.Rand, snaps map[int
 				known = map[uint64]struct{}{}
 				run.Resets = append(run.Resets, c09Reset{Ord: pos, Kind: ev.Kind, P: r})
 				pos = ordAfter(r)
+				since = pos
 				if !checkState("after " + ev.Kind) {
 					return run
 				}
@@ -1009,6 +1015,50 @@ func c09Drive(env *c09Env, l *c09Log, plan c09Plan, rng *kit.Rand, snaps map[int
 				expectLatest, expectTerm = lastDelivered, lastDeliveredTerm
 				run.Stats["localsnap"]++
 				if !checkState("after local snapshot") {
+					return run
+				}
+			case "localsnap-late":
+				// raft's periodic snapshot again, with the timing raft really has: the snapshot
+				// index is fixed on the goroutine that applies entries (runFSM answers the request
+				// with the index of the last entry it applied), but Persist is called later from
+				// the snapshot goroutine (takeSnapshot) while entries keep being applied. The
+				// snapshot a replica persists may therefore name an index that lies Back entries
+				// behind what it has applied by then. The replica has still applied what it has
+				// applied: its position must not move backwards.
+				if ev.Back <= 0 || pos-1-ev.Back < since || pos-1-ev.Back < 0 {
+					continue
+				}
+				old := l.Entries[pos-1-ev.Back].Log
+				_, cfg := fsm.LatestState()
+				var ci uint64
+				var conf raft.Configuration
+				if cfg != nil {
+					ci, conf = protoConfigurationToRaftConfiguration(cfg)
+				}
+				sink, err := store.Create(1, old.Index, old.Term, conf, ci, nil)
+				if err != nil {
+					fail(c09ClassHarnessSelf, err.Error(), nil)
+					return run
+				}
+				sn, _ := fsm.Snapshot()
+				if err := sn.Persist(sink); err != nil {
+					fail(c09ClassSnapshot, "local snapshot persist: "+err.Error(), nil)
+					return run
+				}
+				sink.Close()
+				sn.Release()
+				if old.Index > expectLatest {
+					expectLatest, expectTerm = old.Index, old.Term // only non-final chunks followed: a fast-forward after all
+				} else {
+					run.Stats["localsnap_late_behind_applied_index"]++
+				}
+				run.Stats["localsnap_late"]++
+				if li, _ := fsm.LatestState(); li.Index < expectLatest {
+					probe := c09ReplayProbe(env, l, dir, lastDelivered, modelIdx)
+					fail(c09ClassStaleSnap, fmt.Sprintf("the replica had applied the log up to index %d when the local snapshot that raft had started at index %d (%d entries earlier) was persisted: the state machine now reports, and has written to its file, latest index %d, although its bucket holds the effects of entries up to %d. %s", expectLatest, old.Index, ev.Back, li.Index, expectLatest, probe), map[string]any{"snapshot_index": old.Index, "applied_index": expectLatest})
+					return run
+				}
+				if !checkState("after late local snapshot") {
 					return run
 				}
 			case "install":
@@ -1046,6 +1096,31 @@ func c09Drive(env *c09Env, l *c09Log, plan c09Plan, rng *kit.Rand, snaps map[int
 				modelIdx, expectLatest, expectTerm = sp.meta.Index, sp.meta.Index, sp.meta.Term
 				lastDelivered, lastDeliveredTerm = sp.meta.Index, sp.meta.Term
 				pos = ordAfter(sp.meta.Index)
+				since = pos
+				run.Stats["install_snapshot_bytes"] += len(sp.data)
+				switch {
+				case len(sp.data) > 64<<20:
+					run.Stats["installs_of_snapshot_above_64MiB"]++
+					fallthrough
+				case len(sp.data) > 32<<20:
+					run.Stats["installs_of_snapshot_above_32MiB"]++
+				}
+				if len(l.Hist[sp.meta.Index]) > 50000 {
+					run.Stats["installs_of_snapshot_above_50000_keys"]++
+				}
+				// the installed bucket against the source's at the snapshot index, keys and values
+				// (the source was compared with the replay of the log when the snapshot was taken)
+				if d, derr := c09Dump(fsm); derr == nil {
+					run.Stats["installs_compared_with_source_bucket"]++
+					if diff := c09DiffState(d, l.Hist[sp.meta.Index]); diff != "" {
+						if len(diff) > 1500 {
+							diff = diff[:1500] + " ..."
+						}
+						li, _ := fsm.LatestState()
+						fail(c09ClassInstallDiff, fmt.Sprintf("snapshot of %d bytes taken from the source replica at index %d (%d keys) was streamed into this replica's snapshot store and installed (sink Close and FSM.Restore returned no error, the replica reports latest index %d), but its data bucket is not the source's: %s", len(sp.data), sp.meta.Index, len(l.Hist[sp.meta.Index]), li.Index, diff), map[string]any{"at_index": sp.meta.Index, "snapshot_bytes": len(sp.data)})
+						return run
+					}
+				}
 				if !checkState("after snapshot install") {
 					return run
 				}
@@ -1228,6 +1303,7 @@ func c09Drive(env *c09Env, l *c09Log, plan c09Plan, rng *kit.Rand, snaps map[int
 			modelIdx, expectLatest, expectTerm = mi, rIdx, li.Term
 			lastDelivered, lastDeliveredTerm = rIdx, li.Term
 			pos = ordAfter(rIdx)
+			since = pos
 			continue
 		}
 		if len(resp) != len(logs) {
@@ -1407,14 +1483,106 @@ func c09Drive(env *c09Env, l *c09Log, plan c09Plan, rng *kit.Rand, snaps map[int
 	return run
 }
 
+// c09ReplayProbe shows what the rewound index means: the file as it is on disk
+// is reopened (a process that stops now), raft resumes after the index the
+// snapshot store lists and hands the entries after it to the state machine
+// again. Returns a description for the witness.
+func c09ReplayProbe(env *c09Env, l *c09Log, dir string, applied uint64, modelIdx uint64) (out string) {
+	defer func() {
+		if p := recover(); p != nil {
+			out = fmt.Sprintf("(consequence probe panicked: %v)", p)
+		}
+	}()
+	ndir := dir + "-probe"
+	os.RemoveAll(ndir)
+	if err := os.MkdirAll(ndir, 0o700); err != nil {
+		return ""
+	}
+	defer os.RemoveAll(ndir)
+	if err := c09CopyFile(filepath.Join(dir, databaseFilename), filepath.Join(ndir, databaseFilename)); err != nil {
+		return ""
+	}
+	f, err := NewFSM(ndir, "verif", env.logger)
+	if err != nil {
+		return ""
+	}
+	defer f.Close()
+	st, err := NewBoltSnapshotStore(ndir, env.logger, f)
+	if err != nil {
+		return ""
+	}
+	metas, _ := st.List()
+	r := uint64(0)
+	if len(metas) > 0 {
+		r = metas[0].Index
+	}
+	var flipped []string
+	n := 0
+	for _, e := range l.Entries {
+		if e.Log.Index <= r || e.Log.Index > applied {
+			continue
+		}
+		n++
+		resp := f.chunker.ApplyBatch([]*raft.Log{e.Log})
+		if !e.Visible || l.Cmds[e.Cmd].Kind != "txn" || len(resp) != 1 {
+			continue
+		}
+		rv := resp[0]
+		if cs, ok := rv.(raftchunking.ChunkingSuccess); ok {
+			rv = cs.Response
+		}
+		ar, ok := rv.(*FSMApplyResponse)
+		if !ok || ar == nil {
+			continue
+		}
+		conflict := len(ar.EntrySlice) == 1 && ar.EntrySlice[0].IsTxError()
+		if c := l.Cmds[e.Cmd]; conflict == c.Commit {
+			flipped = append(flipped, fmt.Sprintf("#%d (first time: %s, second time: %s)", e.Log.Index, map[bool]string{true: "commit", false: "conflict"}[c.Commit], map[bool]string{true: "conflict", false: "commit"}[conflict]))
+		}
+	}
+	out = fmt.Sprintf("If the process stops now, the snapshot store lists index %d after the reopen, raft resumes after it and applies entries %d..%d (%d entries) a second time, on top of a bucket that already contains them", r, r+1, applied, n)
+	if len(flipped) > 0 {
+		out += fmt.Sprintf("; transactions whose verdict changes on the second application: %s", strings.Join(flipped, ", "))
+	}
+	if d, err := c09Dump(f); err == nil {
+		if diff := c09DiffState(d, l.Hist[modelIdx]); diff != "" {
+			out += "; afterwards the bucket differs from every replica that applied each entry once: " + diff
+		} else {
+			out += "; in this log the second application happens to reproduce the same bucket"
+		}
+	}
+	return out + "."
+}
+
 // ---------------------------------------------------------------------------
 // case execution shared by both tests
 
 func c09Witness(l *c09Log, run *c09Run, ref *c09Run) map[string]any {
+	rend := l.render()
+	if len(rend) > 1200 {
+		// long logs (large stores): the entries around the deviation, else the tail
+		centre := uint64(0)
+		for _, k := range []string{"index", "at_index", "applied_index"} {
+			if v, ok := run.Dev.Extra[k].(uint64); ok {
+				centre = v
+			}
+		}
+		var cut []string
+		for i, e := range l.Entries {
+			if i < 3 || (centre > 0 && e.Log.Index+30 > centre && e.Log.Index < centre+10) || (centre == 0 && i+40 > len(rend)) {
+				cut = append(cut, rend[i])
+			}
+		}
+		rend = append([]string{fmt.Sprintf("(%d entries, excerpt)", len(rend))}, cut...)
+	}
+	batches := run.Batches
+	if len(batches) > 400 {
+		batches = batches[len(batches)-400:]
+	}
 	w := map[string]any{
-		"log":              l.render(),
+		"log":              rend,
 		"replica":          run.Plan,
-		"batches_by_index": run.Batches,
+		"batches_by_index": batches,
 		"resets":           run.Resets,
 	}
 	for k, v := range run.Dev.Extra {
@@ -1654,6 +1822,7 @@ func c09Plans(rng *kit.Rand, l *c09Log, nrep int) []c09Plan {
 		{Name: "install-fresh", MaxBatch: 5, Events: []c09Event{{Ord: inWindow(), Kind: "install"}}},
 		{Name: "crash-in-apply-post", MaxBatch: 8, Events: []c09Event{{Ord: inWindow() - 1, Kind: "crashin-post"}}},
 		{Name: "crash-in-apply-pre", MaxBatch: 8, Events: []c09Event{{Ord: inWindow() - 1, Kind: "crashin-pre"}}},
+		{Name: "late-localsnap", MaxBatch: 6, Events: []c09Event{{Ord: inWindow(), Kind: "localsnap-late", Back: 1 + rng.Intn(4)}}},
 		{Name: "restart-twice", MaxBatch: 8, Events: []c09Event{{Ord: ord(), Kind: "restart"}, {Ord: inWindow(), Kind: "restart"}}},
 		{Name: "install-lagging", MaxBatch: 4, Events: []c09Event{{Ord: 0, Kind: "lag"}, {Ord: inWindow(), Kind: "install"}}},
 		{Name: "localsnap-restart", MaxBatch: 5, Events: []c09Event{{Ord: ord(), Kind: "localsnap"}, {Ord: inWindow(), Kind: "restart"}}},
@@ -1755,13 +1924,231 @@ func c09DriveLagging(env *c09Env, l *c09Log, p c09Plan, rng *kit.Rand, snaps map
 	return c09Drive(env, l, q, rng, s2, nil)
 }
 
+// ---------------------------------------------------------------------------
+// large stores: snapshot installs whose stream crosses the batch boundaries of
+// the snapshot writer (it commits its bolt transaction every 50000 keys; a
+// writer that also bounds the bytes per transaction has further boundaries)
+
+type c09BigOpts struct {
+	BigBytes int // total size of the large values (0: none)
+	Small    int // number of small keys
+}
+
+// c09BuildBigLog hand-builds a log the way a leader would produce it: a
+// configuration entry, plain puts of large values (300 KiB .. 1 MiB; commands
+// above the raft chunk size travel as chunks, as a leader ships them) mixed
+// with plain puts of small values, then a short tail with deletes, overwrites
+// and two transactions that read and list the large keys. The model state is
+// kept at the returned cut positions only (and at every position of the tail),
+// so replicas of this log are driven with batches that end at cut positions.
+func c09BuildBigLog(rng *kit.Rand, o c09BigOpts) (l *c09Log, cuts []int, snapOrd int) {
+	l = &c09Log{Hist: map[uint64]c09State{0: {}}, Mods: map[uint64]map[string]struct{}{}, EndChunkKeys: map[string]struct{}{}, Chunked: true}
+	cur := c09State{}
+	visible := []uint64{0}
+	idx, term := uint64(0), uint64(1)
+	opnum := uint64(5000)
+	zero := uint64(0)
+	keep := func() {
+		l.Hist[idx] = cur.clone()
+		cuts = append(cuts, len(l.Entries))
+	}
+	add := func(c *c09Cmd, keepHist bool) {
+		c.ID, c.Term, c.NChunks, c.LAI = len(l.Cmds), term, 1, &zero
+		l.Cmds = append(l.Cmds, c)
+		var data []byte
+		typ := raft.LogCommand
+		if c.Kind == "config" {
+			typ = raft.LogConfiguration
+			c.LAI = nil
+			data = raft.EncodeConfiguration(raft.Configuration{Servers: []raft.Server{{ID: "n0", Address: "verif:1"}, {ID: "n1", Address: "verif:2"}}})
+		} else {
+			data = c09Encode(c)
+		}
+		if n := (len(data) + raftchunking.ChunkSize - 1) / raftchunking.ChunkSize; n > 1 {
+			c.NChunks = n
+			opnum += 1 + uint64(rng.Intn(9))
+			c.OpNum = opnum
+		}
+		for i := 0; i < c.NChunks; i++ {
+			idx++
+			lg := &raft.Log{Index: idx, Term: term, Type: typ, Data: data}
+			if c.NChunks > 1 {
+				lo, hi := i*raftchunking.ChunkSize, (i+1)*raftchunking.ChunkSize
+				if hi > len(data) {
+					hi = len(data)
+				}
+				lg.Data = data[lo:hi]
+				ext, err := proto.Marshal(&raftchunkingtypes.ChunkInfo{OpNum: c.OpNum, SequenceNum: uint32(i), NumChunks: uint32(c.NChunks)})
+				if err != nil {
+					panic(err)
+				}
+				lg.Extensions = ext
+			}
+			if i == 0 {
+				c.First = idx
+			}
+			l.Entries = append(l.Entries, &c09Entry{Ord: len(l.Entries), Log: lg, Cmd: c.ID, Seq: i, Visible: i == c.NChunks-1})
+		}
+		c.Final = idx
+		c.Commit = true
+		if c.Kind == "txn" {
+			c.Stale = l.c09Verify(cur, c, visible, idx)
+			c.Commit = len(c.Stale) == 0
+		}
+		mods := map[string]struct{}{}
+		if c.Commit {
+			for _, w := range c.Writes {
+				if w.Del {
+					delete(cur, w.Key)
+				} else {
+					cur[w.Key] = w.Val
+				}
+				mods[w.Key] = struct{}{}
+			}
+		}
+		l.Mods[idx] = mods
+		visible = append(visible, idx)
+		if keepHist {
+			keep()
+		}
+	}
+	add(&c09Cmd{Kind: "config"}, true)
+	// the bulk, in seeded order
+	var bulk []c09Write
+	var bigKeys []string
+	for total, i := 0, 0; total < o.BigBytes; i++ {
+		n := 300<<10 + rng.Intn(724<<10)
+		k := fmt.Sprintf("big/%04d", i)
+		bulk = append(bulk, c09Write{Key: k, Val: string(c09BigVal(rng, n))})
+		bigKeys = append(bigKeys, k)
+		total += n
+	}
+	for i := 0; i < o.Small; i++ {
+		bulk = append(bulk, c09Write{Key: fmt.Sprintf("kv/%02d/%05d", i%37, i), Val: kit.Pick(rng, []string{"v0", "v1", "", "\x00", "a-slightly-longer-value"})})
+	}
+	rng.Shuffle(len(bulk), func(i, j int) { bulk[i], bulk[j] = bulk[j], bulk[i] })
+	every, bytesSince := 1+len(bulk)/24, 0
+	for i, w := range bulk {
+		bytesSince += len(w.Val)
+		k := i < 3 || i == len(bulk)-1 || i%every == 0 || bytesSince > 6<<20
+		if k {
+			bytesSince = 0
+		}
+		add(&c09Cmd{Kind: "put", Writes: []c09Write{w}}, k)
+	}
+	snapOrd = len(l.Entries)
+	snapIdx := idx
+	atSnap := l.Hist[snapIdx]
+	// the tail: what happens after the snapshot position touches and reads the bulk
+	prefix := "kv/00/"
+	if o.BigBytes > 0 {
+		prefix = "big/"
+	}
+	under := c09RefList(cur, prefix, "", 0)
+	rng.Shuffle(len(under), func(i, j int) { under[i], under[j] = under[j], under[i] })
+	k1, k2, k3, k4 := prefix+under[0], prefix+under[1], prefix+under[2], prefix+under[3]
+	add(&c09Cmd{Kind: "put", Writes: []c09Write{{Key: "tail/a", Val: "1"}}}, true)
+	// T1 starts here: it lists the bulk prefix and reads one of its keys. Another key under the
+	// prefix is overwritten inside its window (the listing keeps its names), so no replica may
+	// skip the verification, and the verification has to find every name and the value intact.
+	t1 := &c09Cmd{Kind: "txn", Start: idx,
+		Reads:  []c09Read{{Key: k1, Present: true, Val: cur[k1]}},
+		Lists:  []c09List{{Prefix: prefix, After: "", Limit: len(under), Items: c09RefList(cur, prefix, "", 0)}},
+		Writes: []c09Write{{Key: "tail/t1", Val: "committed"}}}
+	add(&c09Cmd{Kind: "put", Writes: []c09Write{{Key: k4, Val: "overwritten-inside-the-window-of-t1"}}}, true)
+	add(t1, true)
+	add(&c09Cmd{Kind: "del", Writes: []c09Write{{Del: true, Key: k2}}}, true)
+	add(&c09Cmd{Kind: "put", Writes: []c09Write{{Key: k3, Val: "small-now"}}}, true)
+	// T2's view is the snapshot's: it read k3 before the write above
+	add(&c09Cmd{Kind: "txn", Start: snapIdx,
+		Reads:  []c09Read{{Key: k3, Present: true, Val: atSnap[k3]}},
+		Writes: []c09Write{{Key: "tail/t2", Val: "must-not-exist"}}}, true)
+	items := c09RefList(cur, prefix, "", 0)
+	add(&c09Cmd{Kind: "txn", Start: idx - 1,
+		Lists:  []c09List{{Prefix: prefix, After: "", Limit: len(items), Items: items}},
+		Writes: []c09Write{{Key: "tail/t3", Val: "committed"}, {Del: true, Key: "tail/a"}}}, true)
+	return l, cuts, snapOrd
+}
+
+// c09BigCases: one replica builds the store, a snapshot of it is taken at the end
+// of the bulk through the snapshot store (BoltSnapshotStore.Open of the live
+// state machine, the stream a leader sends), and followers are initialised from
+// it through sink / installer / FSM.Restore: one that lags from the second
+// entry on and (thorough) one that had applied everything itself. They then
+// apply the tail. Every installed bucket must equal the source's, keys and
+// values; verdicts and final buckets are compared as for every other log.
+func c09BigCases(r *kit.Result, env *c09Env, seed int64) {
+	type bc struct {
+		id string
+		o  c09BigOpts
+	}
+	cases := []bc{{"LB0", c09BigOpts{BigBytes: 34 << 20, Small: 300}}}
+	if kit.Tier() == "thorough" {
+		cases = append(cases,
+			bc{"LB1", c09BigOpts{BigBytes: 67 << 20, Small: 500}},
+			bc{"LB2", c09BigOpts{BigBytes: 99 << 20, Small: 200}},
+			bc{"LB3", c09BigOpts{BigBytes: 0, Small: 61000}},
+			bc{"LB4", c09BigOpts{BigBytes: 36 << 20, Small: 52000}},
+			bc{"LB5", c09BigOpts{BigBytes: 40 << 20, Small: 50}},
+		)
+	}
+	shard, shards := kit.Shard()
+	for i, c := range cases {
+		if i%shards != shard || !kit.WantCase(c.id) {
+			continue
+		}
+		rng := kit.NewRand(seed, 9_700_000+uint64(i))
+		c.o.BigBytes += rng.Intn(3<<20) * c09Btoi(c.o.BigBytes > 0)
+		l, cuts, snapOrd := c09BuildBigLog(rng, c.o)
+		r.Eval(1)
+		if c09LogStats(r, l) {
+			r.Nontrivial(l.digest())
+		}
+		r.Count("large_store_logs", 1)
+		snaps := map[int]*c09Snap{}
+		ref := c09Drive(env, l, c09Plan{Name: "reference", Cuts: cuts, MaxBatch: 1}, kit.NewRand(seed, uint64(i)<<8|0xb0), snaps, map[int]bool{snapOrd: true})
+		c09Finish(r, c.id, l, ref, ref)
+		if sp := snaps[snapOrd]; sp != nil {
+			r.Count("large_store_snapshot_bytes", len(sp.data))
+		} else if ref.Dev == nil {
+			r.Inconc("%s: the reference replica produced no snapshot", c.id)
+		}
+		plans := []c09Plan{{Name: "install-lagging-large-store", Cuts: cuts, MaxBatch: 1, Stream: 1, Events: []c09Event{{Ord: snapOrd, Kind: "install"}}}}
+		if kit.Tier() == "thorough" {
+			plans = append(plans, c09Plan{Name: "install-fresh-large-store", Cuts: cuts, MaxBatch: 1, Stream: 2, Events: []c09Event{{Ord: snapOrd, Kind: "install"}}})
+		}
+		for k, p := range plans {
+			prng := kit.NewRand(seed, uint64(i)<<8|0xb1+uint64(k))
+			var run *c09Run
+			if k == 0 {
+				run = c09DriveLagging(env, l, p, prng, snaps, 2)
+			} else {
+				run = c09Drive(env, l, p, prng, snaps, nil)
+			}
+			c09Finish(r, c.id, l, run, ref)
+		}
+		snaps = nil
+		if c.id == "LB0" {
+			rend := l.render()
+			r.Sample(map[string]any{"case": c.id, "large_values_bytes": c.o.BigBytes, "small_keys": c.o.Small, "raft_entries": len(l.Entries), "snapshot_taken_after_entry": snapOrd, "log_tail": c09Tail(rend, 8)})
+		}
+	}
+}
+
+func c09Btoi(b bool) int {
+	if b {
+		return 1
+	}
+	return 0
+}
+
 func TestVerif_C09_Logs(t *testing.T) {
 	seed := kit.Seed(9)
-	r := kit.NewResult(t, "c09-logs", seed, "a case is one generated leader-consistent raft log (plain puts/deletes, transactions with honest read/list verification entries for a start index anywhere in the past, shipped LowestActiveIndex, chunked and unchunked encodings interleaved, term changes, configuration entries, index gaps) applied to a reference replica (one entry per batch) and R-1 further replicas differing in batching, restart, crash, local snapshot and snapshot-install position; non-trivial = the log contains both a transaction ground truth commits and one it rejects; distinct by log digest")
+	r := kit.NewResult(t, "c09-logs", seed, "a case is one generated leader-consistent raft log (plain puts/deletes, transactions with honest read/list verification entries for a start index anywhere in the past, shipped LowestActiveIndex, chunked and unchunked encodings interleaved, term changes, configuration entries, index gaps) applied to a reference replica (one entry per batch) and R-1 further replicas differing in batching, restart, crash, local snapshot (also one that raft persists a few entries late) and snapshot-install position, plus hand-built logs whose store is larger than 32 MiB (thorough: also > 64 MiB, > 96 MiB and > 50000 keys) where followers are initialised from a snapshot streamed through the snapshot store / sink / installer and must hold the source's bucket byte for byte; non-trivial = the log contains both a transaction ground truth commits and one it rejects; distinct by log digest")
 	defer r.Write(t)
 	env := c09NewEnv(t, "0")
 	ncases := kit.N(1000, 50000)
-	nrep := kit.N(8, 12)
+	nrep := kit.N(9, 13)
 	shard, shards := kit.Shard()
 	sampled := 0
 	for i := 0; i < ncases; i++ {
@@ -1790,6 +2177,16 @@ func TestVerif_C09_Logs(t *testing.T) {
 		if sampled < 2 && len(l.Entries) <= 14 {
 			sampled++
 			r.Sample(map[string]any{"case": caseID, "log": l.render(), "replicas": plans})
+		}
+	}
+	c09BigCases(r, env, seed)
+	r.Require("large_store_logs", 1)
+	r.Require("installs_compared_with_source_bucket", 100)
+	if shards == 1 {
+		r.Require("installs_of_snapshot_above_32MiB", int64(kit.N(1, 6)))
+		if kit.Tier() == "thorough" {
+			r.Require("installs_of_snapshot_above_64MiB", 3)
+			r.Require("installs_of_snapshot_above_50000_keys", 3)
 		}
 	}
 	// minimum observations (about half of what the unchanged tree yields); thorough runs 50x the cases
@@ -1873,6 +2270,9 @@ func TestVerif_C09_Small(t *testing.T) {
 				c09Plan{Name: fmt.Sprintf("install@%d-fresh", p), Cuts: []int{p, n}, Events: []c09Event{{Ord: p, Kind: "install"}}},
 				c09Plan{Name: fmt.Sprintf("install@%d-lagging", p), Cuts: allcuts, Events: []c09Event{{Ord: 0, Kind: "lag"}, {Ord: p, Kind: "install"}}},
 			)
+			if p >= 2 {
+				plans = append(plans, c09Plan{Name: fmt.Sprintf("late-localsnap@%d", p), Cuts: allcuts, Events: []c09Event{{Ord: p, Kind: "localsnap-late", Back: 1 + p%2}}})
+			}
 		}
 		// the process dies inside the ApplyBatch call that starts at entry p
 		for p := 0; p < n; p++ {
@@ -1944,20 +2344,99 @@ func c09Leader(t *testing.T, dir string) *RaftBackend {
 }
 
 type c09OpenTxn struct {
-	tx    physical.Transaction
-	wrote bool
-	steps []string
+	tx     physical.Transaction
+	wrote  bool
+	steps  []string
+	writes []c09Write
+	snap   c09State // read-only transactions: the state they were started on
+	index  uint64
 }
 
 // c09LeaderWorkload drives the leader from one goroutine: plain writes and up
 // to three open read-write transactions whose operations interleave, so that
 // transactions commit with start indexes well in the past. Returns the
 // verdict per log index of every transaction that produced a log entry.
-func c09LeaderWorkload(r *kit.Result, b *RaftBackend, rng *kit.Rand, steps int) (verdicts map[uint64]bool, scripts map[uint64][]string, ok bool) {
+func c09LeaderWorkload(r *kit.Result, b *RaftBackend, rng, roRng *kit.Rand, steps int) (verdicts map[uint64]bool, scripts map[uint64][]string, ok bool) {
 	ctx := context.Background()
 	verdicts = map[uint64]bool{}
 	scripts = map[uint64][]string{}
 	var open []*c09OpenTxn
+	// what the acknowledged calls add up to (transactions by the verdict the leader gave): the
+	// state a read-only transaction must keep reading, however long it stays open
+	model := c09State{}
+	var ros []*c09OpenTxn
+	beginRO := func() bool {
+		tx, err := b.BeginReadOnlyTx(ctx)
+		if err != nil {
+			r.Inconc("leader begin read-only: %v", err)
+			return false
+		}
+		o := &c09OpenTxn{tx: tx, snap: model.clone(), index: tx.(*RaftTransaction).index, steps: []string{fmt.Sprintf("begin read-only at applied index %d", b.AppliedIndex())}}
+		ros = append(ros, o)
+		r.Count("leader_ro_txn_begun", 1)
+		for _, w := range open {
+			if w.index == o.index {
+				r.Count("leader_ro_txn_begun_at_start_index_of_open_write_txn", 1)
+				break
+			}
+		}
+		return true
+	}
+	readRO := func(o *c09OpenTxn) bool {
+		if roRng.Chance(1, 2) {
+			k := kit.Pick(roRng, c09Keys)
+			e, err := o.tx.Get(ctx, k)
+			if err != nil {
+				r.Inconc("leader read-only get: %v", err)
+				return false
+			}
+			want, present := o.snap[k]
+			o.steps = append(o.steps, fmt.Sprintf("get %s -> %v", k, e != nil))
+			r.Count("leader_ro_txn_reads_compared_with_state_at_begin", 1)
+			if (e != nil) != present || (e != nil && string(e.Value) != want) {
+				r.Violate(c09ClassROSnap, "", fmt.Sprintf("a read-only transaction on the leader did not read the state it was started on: get %s returned %v, the state at its begin has present=%v %q", k, e, present, want), map[string]any{"script": o.steps})
+			}
+			return true
+		}
+		p := kit.Pick(roRng, c09Prefixes)
+		got, err := o.tx.List(ctx, p)
+		if err != nil {
+			r.Inconc("leader read-only list: %v", err)
+			return false
+		}
+		want := c09RefList(o.snap, p, "", 0)
+		o.steps = append(o.steps, fmt.Sprintf("list %q -> %v", p, got))
+		r.Count("leader_ro_txn_reads_compared_with_state_at_begin", 1)
+		if strings.Join(got, "\n") != strings.Join(want, "\n") {
+			r.Violate(c09ClassROSnap, "", fmt.Sprintf("a read-only transaction on the leader did not read the state it was started on: list %q returned %v, the state at its begin lists %v", p, got, want), map[string]any{"script": o.steps})
+		}
+		return true
+	}
+	finishRO := func(i int) bool {
+		o := ros[i]
+		ros = append(ros[:i], ros[i+1:]...)
+		if !readRO(o) {
+			return false
+		}
+		before := b.AppliedIndex()
+		var err error
+		how := "commit"
+		if roRng.Chance(1, 2) {
+			how = "rollback"
+			err = o.tx.Rollback(ctx)
+		} else {
+			err = o.tx.Commit(ctx)
+		}
+		if err != nil || b.AppliedIndex() != before {
+			r.Inconc("leader: read-only %s returned %v, applied index %d -> %d", how, err, before, b.AppliedIndex())
+			return false
+		}
+		r.Count("leader_ro_txn_"+how, 1)
+		if len(open) > 0 {
+			r.Count("leader_ro_txn_finished_while_write_txn_open", 1)
+		}
+		return true
+	}
 	finish := func(i int, commit bool) bool {
 		o := open[i]
 		open = append(open[:i], open[i+1:]...)
@@ -1989,6 +2468,13 @@ func c09LeaderWorkload(r *kit.Result, b *RaftBackend, rng *kit.Rand, steps int) 
 		verdicts[after] = err == nil
 		scripts[after] = o.steps
 		if err == nil {
+			for _, w := range o.writes {
+				if w.Del {
+					delete(model, w.Key)
+				} else {
+					model[w.Key] = w.Val
+				}
+			}
 			r.Count("leader_txn_commit", 1)
 		} else {
 			r.Count("leader_txn_conflict", 1)
@@ -2006,19 +2492,21 @@ func c09LeaderWorkload(r *kit.Result, b *RaftBackend, rng *kit.Rand, steps int) 
 				r.Inconc("leader put: %v", err)
 				return nil, nil, false
 			}
+			model[k] = "v0"
 		}
 		tx, err := b.BeginTx(ctx)
 		if err != nil {
 			r.Inconc("leader begin: %v", err)
 			return nil, nil, false
 		}
-		o := &c09OpenTxn{tx: tx, wrote: true, steps: []string{fmt.Sprintf("begin at applied index %d", b.AppliedIndex())}}
+		o := &c09OpenTxn{tx: tx, wrote: true, index: tx.(*RaftTransaction).index, writes: []c09Write{{Key: "b/k1", Val: "v1"}}, steps: []string{fmt.Sprintf("begin at applied index %d", b.AppliedIndex())}}
 		got, err := tx.ListPage(ctx, "a/", "", lim)
 		if err == nil {
 			err = tx.Put(ctx, &physical.Entry{Key: "b/k1", Value: []byte("v1")})
 		}
 		if err == nil {
 			err = b.Put(ctx, &physical.Entry{Key: "c", Value: []byte(fmt.Sprintf("v%d", lim+1))})
+			model["c"] = fmt.Sprintf("v%d", lim+1)
 		}
 		if err != nil {
 			r.Inconc("leader prologue: %v", err)
@@ -2032,19 +2520,39 @@ func c09LeaderWorkload(r *kit.Result, b *RaftBackend, rng *kit.Rand, steps int) 
 		r.Count("leader_txn_lists", 1)
 	}
 	for s := 0; s < steps; s++ {
+		// read-only transactions come and go between the steps of the writers; they draw from a
+		// PRNG stream of their own, so the writers' walk is the one it would be without them
+		switch y := roRng.Intn(100); {
+		case y < 5 && len(ros) < 2:
+			if !beginRO() {
+				return nil, nil, false
+			}
+		case y < 14 && len(ros) > 0:
+			if !readRO(kit.Pick(roRng, ros)) {
+				return nil, nil, false
+			}
+		case y < 19 && len(ros) > 0:
+			if !finishRO(roRng.Intn(len(ros))) {
+				return nil, nil, false
+			}
+		}
 		x := rng.Intn(100)
 		switch {
 		case x < 15:
 			k := kit.Pick(rng, c09Keys)
-			if err := b.Put(ctx, &physical.Entry{Key: k, Value: val()}); err != nil {
+			v := val()
+			if err := b.Put(ctx, &physical.Entry{Key: k, Value: v}); err != nil {
 				r.Inconc("leader put: %v", err)
 				return nil, nil, false
 			}
+			model[k] = string(v)
 		case x < 20:
-			if err := b.Delete(ctx, kit.Pick(rng, c09Keys)); err != nil {
+			k := kit.Pick(rng, c09Keys)
+			if err := b.Delete(ctx, k); err != nil {
 				r.Inconc("leader delete: %v", err)
 				return nil, nil, false
 			}
+			delete(model, k)
 		case x < 35:
 			if len(open) < 3 {
 				tx, err := b.BeginTx(ctx)
@@ -2052,7 +2560,11 @@ func c09LeaderWorkload(r *kit.Result, b *RaftBackend, rng *kit.Rand, steps int) 
 					r.Inconc("leader begin: %v", err)
 					return nil, nil, false
 				}
-				open = append(open, &c09OpenTxn{tx: tx, steps: []string{fmt.Sprintf("begin at applied index %d", b.AppliedIndex())}})
+				open = append(open, &c09OpenTxn{tx: tx, index: tx.(*RaftTransaction).index, steps: []string{fmt.Sprintf("begin at applied index %d", b.AppliedIndex())}})
+				// often a reader starts at the very same position
+				if len(ros) < 2 && roRng.Chance(1, 3) && !beginRO() {
+					return nil, nil, false
+				}
 			}
 		case x < 75:
 			if len(open) == 0 {
@@ -2084,12 +2596,15 @@ func c09LeaderWorkload(r *kit.Result, b *RaftBackend, rng *kit.Rand, steps int) 
 				o.steps = append(o.steps, fmt.Sprintf("listpage %q after %q limit %d -> %v", p, after, limit, got))
 				r.Count("leader_txn_lists", 1)
 			case y < 85:
-				err = o.tx.Put(ctx, &physical.Entry{Key: k, Value: val()})
+				v := val()
+				err = o.tx.Put(ctx, &physical.Entry{Key: k, Value: v})
 				o.wrote = true
+				o.writes = append(o.writes, c09Write{Key: k, Val: string(v)})
 				o.steps = append(o.steps, "put "+k)
 			default:
 				err = o.tx.Delete(ctx, k)
 				o.wrote = true
+				o.writes = append(o.writes, c09Write{Del: true, Key: k})
 				o.steps = append(o.steps, "delete "+k)
 			}
 			if err != nil {
@@ -2108,6 +2623,11 @@ func c09LeaderWorkload(r *kit.Result, b *RaftBackend, rng *kit.Rand, steps int) 
 	}
 	for len(open) > 0 {
 		if !finish(0, true) {
+			return nil, nil, false
+		}
+	}
+	for len(ros) > 0 {
+		if !finishRO(0) {
 			return nil, nil, false
 		}
 	}
@@ -2284,7 +2804,7 @@ func TestVerif_C09_LeaderLog(t *testing.T) {
 			t.Fatal(err)
 		}
 		b := c09Leader(t, dir)
-		verdicts, scripts, ok := c09LeaderWorkload(r, b, rng, kit.N(2000, 4000))
+		verdicts, scripts, ok := c09LeaderWorkload(r, b, rng, kit.NewRand(seed, 9_850_000+uint64(sess)), kit.N(2000, 4000))
 		if !ok {
 			continue
 		}
@@ -2368,6 +2888,13 @@ func TestVerif_C09_LeaderLog(t *testing.T) {
 			}
 			plans = append(plans, p)
 		}
+		for k := 0; k < 3; k++ {
+			pos := 3 + rng.Intn(n-3)
+			if len(cands) > 0 {
+				pos = kit.Pick(rng, cands)
+			}
+			plans = append(plans, c09Plan{Name: fmt.Sprintf("late-localsnap@%d", pos), MaxBatch: 1 + rng.Intn(8), Events: []c09Event{{Ord: pos, Kind: "localsnap-late", Back: 1 + rng.Intn(3)}}})
+		}
 		for k := range plans {
 			plans[k].Stream = uint64(k%250 + 1)
 		}
@@ -2392,6 +2919,10 @@ func TestVerif_C09_LeaderLog(t *testing.T) {
 	req("leader_txn_commit", 60)
 	req("leader_txn_conflict", 30)
 	req("leader_txn_lists", 150)
+	req("leader_ro_txn_begun", 60)
+	req("leader_ro_txn_begun_at_start_index_of_open_write_txn", 30)
+	req("leader_ro_txn_finished_while_write_txn_open", 30)
+	req("leader_ro_txn_reads_compared_with_state_at_begin", 150)
 	req("crashes_inside_apply_post", 8)
 	req("installs_with_zero_length_value_after_nonempty_neighbour", 8)
 	req("installs_with_single_nul_value", 6)
@@ -2429,6 +2960,7 @@ const (
 	c09ClassLeaderVerdict    = "C09-leader-reported-verdict-differs-from-replicas"
 	c09ClassLeaderVerdictRef = "C09-leader-reported-verdict-differs-from-serial-reference"
 	c09ClassLeaderAck        = "C09-leader-ack-differs-from-log"
+	c09ClassROSnap           = "C09-leader-readonly-txn-not-a-snapshot"
 )
 
 var (
@@ -2516,6 +3048,9 @@ func (s *c09SzSession) del(cell, key string) bool {
 // must be exactly what the acknowledged calls add up to, with no chunk left staged.
 func (s *c09SzSession) checkLeader(c *c09SzCall, when string) {
 	if s.bad {
+		if c != nil {
+			c.Leader = "(not compared: the leader's bucket had deviated from the serial reference before)"
+		}
 		return
 	}
 	d, err := c09Dump(s.b.fsm)
@@ -2793,6 +3328,247 @@ func (s *c09SzSession) txnCell(no int, size, inval string) bool {
 	return true
 }
 
+// roCell: a write transaction T and a read-only transaction R in every relative
+// position. order: which of the two begins first, at the same applied index or
+// with a plain write between the two begins; pattern: the plain writes that land
+// while T is open (C changes something T read, U is unrelated); when: the moment
+// R is finished (before the writes, after the first one, after all of them, after
+// T's commit); fin: how (commit or rollback). R must see the state of its begin
+// whenever it reads, must not produce a log entry, and must not change what T's
+// commit answers: the serial reference says conflict iff the pattern contains C.
+func (s *c09SzSession) roCell(no int, order, fin, when, pattern string) bool {
+	ctx := context.Background()
+	r, b, rng := s.r, s.b, s.rng
+	cell := fmt.Sprintf("ro/%s/%s/%s/%s", order, fin, when, pattern)
+	ns := fmt.Sprintf("m%02d/", no)
+	for _, kv := range [][2]string{{"g", "g0"}, {"l/a", "x"}} {
+		if _, ok := s.put(cell, ns+kv[0], []byte(kv[1]), fmt.Sprintf("plain put %s=%q", ns+kv[0], kv[1])); !ok {
+			return false
+		}
+	}
+	call := &c09SzCall{Cell: cell, Op: "txn", Size: "small"}
+	fail := func(format string, a ...any) bool {
+		r.Inconc("%s %s: "+format, append([]any{s.caseID, cell}, a...)...)
+		return false
+	}
+	var T, R physical.Transaction
+	var snapR c09State
+	rOpen := false
+	withList := rng.Chance(1, 2)
+	beginT := func() bool {
+		tx, err := b.BeginTx(ctx)
+		if err != nil {
+			return fail("begin T: %v", err)
+		}
+		T = tx
+		call.Script = append(call.Script, fmt.Sprintf("T: begin (write transaction) at applied index %d", b.AppliedIndex()))
+		e, err := T.Get(ctx, ns+"g")
+		if err != nil || e == nil || string(e.Value) != s.model[ns+"g"] {
+			return fail("T get: %v %v", e, err)
+		}
+		call.Script = append(call.Script, fmt.Sprintf("T: get %s -> %q", ns+"g", e.Value))
+		if withList {
+			items, err := T.List(ctx, ns+"l/")
+			if err != nil || strings.Join(items, "\n") != strings.Join(c09RefList(s.model, ns+"l/", "", 0), "\n") {
+				return fail("T list: %v %v", items, err)
+			}
+			call.Script = append(call.Script, fmt.Sprintf("T: list %q -> %v", ns+"l/", items))
+		}
+		return true
+	}
+	readR := func(at string) {
+		bad := ""
+		for _, k := range []string{ns + "g", ns + "u0", ns + "l/c"} {
+			e, err := R.Get(ctx, k)
+			want, present := snapR[k]
+			switch {
+			case err != nil:
+				bad += fmt.Sprintf("get %s: %v; ", k, err)
+			case (e != nil) != present || (e != nil && string(e.Value) != want):
+				bad += fmt.Sprintf("get %s returned %v, the state at R's begin has present=%v %q; ", k, e, present, want)
+			}
+		}
+		items, err := R.List(ctx, ns+"l/")
+		if want := c09RefList(snapR, ns+"l/", "", 0); err != nil || strings.Join(items, "\n") != strings.Join(want, "\n") {
+			bad += fmt.Sprintf("list %q returned %v (%v), the state at R's begin lists %v; ", ns+"l/", items, err, want)
+		}
+		r.Count("ro_txn_reads_compared_with_state_at_begin", 4)
+		call.Script = append(call.Script, fmt.Sprintf("R: get %s, %s, %s and list %q %s", ns+"g", ns+"u0", ns+"l/c", ns+"l/", at))
+		if bad != "" {
+			r.Violate(c09ClassROSnap, s.caseID+"leader", fmt.Sprintf("%s: a read-only transaction on the leader did not read the state it was started on (%s): %s", cell, at, bad), map[string]any{"script": call.Script})
+		}
+	}
+	beginR := func() bool {
+		tx, err := b.BeginReadOnlyTx(ctx)
+		if err != nil {
+			return fail("begin R: %v", err)
+		}
+		R, rOpen, snapR = tx, true, s.model.clone()
+		call.Script = append(call.Script, fmt.Sprintf("R: begin (read-only transaction) at applied index %d", b.AppliedIndex()))
+		readR("right after its begin")
+		return true
+	}
+	entriesSinceT := 0
+	finishR := func() bool {
+		if !rOpen {
+			return true
+		}
+		rOpen = false
+		readR("before it finishes")
+		before := b.AppliedIndex()
+		var err error
+		if fin == "commit" {
+			err = R.Commit(ctx)
+		} else {
+			err = R.Rollback(ctx)
+		}
+		call.Script = append(call.Script, fmt.Sprintf("R: %s -> %v", fin, err))
+		if err != nil || b.AppliedIndex() != before {
+			return fail("read-only %s returned %v, applied index %d -> %d", fin, err, before, b.AppliedIndex())
+		}
+		r.Count("ro_txn_"+fin, 1)
+		if T != nil {
+			r.Count(fmt.Sprintf("ro_txn_finished_while_write_txn_open_after_%d_entries", min(entriesSinceT, 2)), 1)
+		}
+		return true
+	}
+	between := func() bool {
+		_, ok := s.put(cell, ns+"w", []byte("w"), "plain put "+ns+"w (between the two begins)")
+		call.Script = append(call.Script, "(another client: plain put "+ns+"w)")
+		return ok
+	}
+	switch order {
+	case "T-then-R":
+		if !beginT() || !beginR() {
+			return false
+		}
+	case "R-then-T":
+		if !beginR() || !beginT() {
+			return false
+		}
+	case "T-write-R":
+		if !beginT() || !between() || !beginR() {
+			return false
+		}
+		entriesSinceT++
+	case "R-write-T":
+		if !beginR() || !between() || !beginT() {
+			return false
+		}
+	}
+	if T.(*RaftTransaction).index == R.(*RaftTransaction).index {
+		r.Count("ro_txn_same_start_index_as_open_write_txn", 1)
+	} else {
+		r.Count("ro_txn_other_start_index_than_open_write_txn", 1)
+	}
+	if when == "before-writes" && !finishR() {
+		return false
+	}
+	conflict := false
+	for i, w := range strings.Split(pattern, "+") {
+		switch {
+		case w == "U":
+			k := fmt.Sprintf("%su%d", ns, i)
+			if _, ok := s.put(cell, k, []byte("u"), "plain put "+k+" (outside T's read set)"); !ok {
+				return false
+			}
+			call.Script = append(call.Script, "(another client: plain put "+k+", which T neither read nor listed)")
+		case withList && rng.Chance(1, 2):
+			conflict = true
+			if _, ok := s.put(cell, ns+"l/c", []byte("z"), "plain put "+ns+"l/c"); !ok {
+				return false
+			}
+			call.Script = append(call.Script, "(another client: plain put "+ns+"l/c, a new child of the prefix T listed)")
+		default:
+			conflict = true
+			v := fmt.Sprintf("g%d", i+1)
+			if _, ok := s.put(cell, ns+"g", []byte(v), "plain put "+ns+"g="+v); !ok {
+				return false
+			}
+			call.Script = append(call.Script, "(another client: plain put "+ns+"g=\""+v+"\", the key T read)")
+		}
+		entriesSinceT++
+		if when == "between-writes" && i == 0 && !finishR() {
+			return false
+		}
+	}
+	if when != "after-T-commit" && !finishR() {
+		return false
+	}
+	if err := T.Put(ctx, &physical.Entry{Key: ns + "p", Value: []byte("derived-from-" + ns + "g=g0")}); err != nil {
+		return fail("T put: %v", err)
+	}
+	call.Script = append(call.Script, "T: put "+ns+"p")
+	call.Inval = map[bool]string{true: "changed-while-read-only-txn-around", false: "untouched-while-read-only-txn-around"}[conflict]
+	call.Truth = map[bool]string{true: "conflict", false: "commit"}[conflict]
+	call.Before = b.AppliedIndex()
+	err := T.Commit(ctx)
+	call.After = b.AppliedIndex()
+	T = nil
+	call.Client, call.Err = c09SzVerdict(err)
+	call.Script = append(call.Script, "T: commit -> "+call.Client)
+	s.calls = append(s.calls, call)
+	if call.After == call.Before {
+		return fail("a writing transaction produced no log entry (commit returned %v)", err)
+	}
+	s.truth[call.After] = !conflict
+	if !conflict {
+		s.model[ns+"p"] = "derived-from-" + ns + "g=g0"
+	}
+	if !finishR() {
+		return false
+	}
+	s.checkLeader(call, "after the commit of "+cell)
+	return true
+}
+
+// c09ReplicaVerdict: what a fresh, never-restarted replica answers for the
+// transaction completed by the entry at index idx when it applies the log up
+// to there one entry per batch ("commit", "conflict" or a description).
+func c09ReplicaVerdict(env *c09Env, l *c09Log, idx uint64) (out string) {
+	defer func() {
+		if p := recover(); p != nil {
+			out = fmt.Sprintf("panic: %v", p)
+		}
+	}()
+	env.nfsm++
+	dir := filepath.Join(env.base, fmt.Sprintf("v%d", env.nfsm))
+	if err := os.MkdirAll(dir, 0o700); err != nil {
+		return err.Error()
+	}
+	defer os.RemoveAll(dir)
+	f, err := NewFSM(dir, "verif", env.logger)
+	if err != nil {
+		return err.Error()
+	}
+	defer f.Close()
+	for _, e := range l.Entries {
+		if e.Log.Index > idx {
+			break
+		}
+		resp := f.chunker.ApplyBatch([]*raft.Log{e.Log})
+		if e.Log.Index != idx {
+			continue
+		}
+		if len(resp) != 1 {
+			return fmt.Sprintf("%d responses", len(resp))
+		}
+		rv := resp[0]
+		if cs, ok := rv.(raftchunking.ChunkingSuccess); ok {
+			rv = cs.Response
+		}
+		ar, ok := rv.(*FSMApplyResponse)
+		if !ok || ar == nil || !ar.Success {
+			return fmt.Sprintf("response %T %v", rv, rv)
+		}
+		if len(ar.EntrySlice) == 1 && ar.EntrySlice[0].IsTxError() {
+			return "conflict"
+		}
+		return "commit"
+	}
+	return "entry not found"
+}
+
 // c09SzClassOf: the size class an entry of the leader's log actually falls into.
 func c09SzClassOf(c *c09Cmd, maxEntry int) string {
 	cs := raftchunking.ChunkSize
@@ -2866,6 +3642,13 @@ func c09SizesPlans(r *kit.Result, rng *kit.Rand, l *c09Log, nres int) []c09Plan 
 		}
 		plans = append(plans, p)
 	}
+	for k := 0; k < 3; k++ {
+		pos := 3 + rng.Intn(n-3)
+		if cs := cands[(k+2)%5]; len(cs) > 0 {
+			pos = kit.Pick(rng, cs)
+		}
+		plans = append(plans, c09Plan{Name: fmt.Sprintf("late-localsnap@%d", pos), MaxBatch: 1 + rng.Intn(8), Events: []c09Event{{Ord: pos, Kind: "localsnap-late", Back: 1 + rng.Intn(3)}}})
+	}
 	for k := range plans {
 		plans[k].Stream = uint64(k%250 + 1)
 	}
@@ -2874,7 +3657,7 @@ func c09SizesPlans(r *kit.Result, rng *kit.Rand, l *c09Log, nres int) []c09Plan 
 
 func TestVerif_C09_LeaderSizes(t *testing.T) {
 	seed := kit.Seed(9)
-	r := kit.NewResult(t, "c09-leadersizes", seed, "a real single-node raft leader runs a fixed matrix of client calls: transactions (Get + List + Put(s) + Delete) whose log entry is small / just below one raft chunk / one chunk plus a short tail / several chunks / at max_entry_size, each with its read set left alone / rewritten with the same value / changed by a plain put (small or itself chunked) / its listed prefix changed / changed by another committed transaction, and plain puts cut to exactly the chunk size, chunk size + 1, max_entry_size and max_entry_size + 1, plain deletes of large, small and absent values (seeded: order of the cells, value bytes, size jitter); a case is one replica replaying the leader's own raft log under some batching and restart/crash/install position; non-trivial = a replica with a restart, crash or snapshot-install event placed at a chunk boundary, between two chunks or at the edge of a transaction window; distinct by (leader session, plan)")
+	r := kit.NewResult(t, "c09-leadersizes", seed, "a real single-node raft leader runs a fixed matrix of client calls: transactions (Get + List + Put(s) + Delete) whose log entry is small / just below one raft chunk / one chunk plus a short tail / several chunks / at max_entry_size, each with its read set left alone / rewritten with the same value / changed by a plain put (small or itself chunked) / its listed prefix changed / changed by another committed transaction, and plain puts cut to exactly the chunk size, chunk size + 1, max_entry_size and max_entry_size + 1, plain deletes of large, small and absent values (seeded: order of the cells, value bytes, size jitter), and a write transaction T next to a read-only transaction R in every relative position {T or R begins first at the same applied index / with a write between the begins} x {R committed / rolled back} x {before, between, after the plain writes that land while T is open, after T's commit} x {writes: conflicting+unrelated, unrelated+conflicting, unrelated only, conflicting only, conflicting+2 unrelated}, R's reads compared with the state at its begin; a case is one replica replaying the leader's own raft log under some batching and restart/crash/install position; non-trivial = a replica with a restart, crash or snapshot-install event placed at a chunk boundary, between two chunks or at the edge of a transaction window; distinct by (leader session, plan)")
 	defer r.Write(t)
 	env := c09NewEnv(t, "268435456")
 	shard, shards := kit.Shard()
@@ -2896,28 +3679,49 @@ func TestVerif_C09_LeaderSizes(t *testing.T) {
 		maxEntry := int(b.maxEntrySize)
 		s := &c09SzSession{r: r, b: b, rng: rng, caseID: caseID, model: c09State{}, truth: map[uint64]bool{}}
 		// the matrix, in seeded order
-		type cellT struct{ kind, size, inval string }
+		type cellT struct {
+			kind, size, inval string
+			ro                [4]string // order, fin, when, pattern
+		}
 		var cells []cellT
 		for _, sz := range c09SzSizes {
 			for _, iv := range c09SzInvals {
-				cells = append(cells, cellT{"txn", sz, iv})
+				cells = append(cells, cellT{kind: "txn", size: sz, inval: iv})
 			}
 		}
 		cells = append(cells,
-			cellT{"txn", "above-chunk", "same-value"},
-			cellT{"txn", kit.Pick(rng, []string{"small", "below-chunk"}), "plain-write-chunked"},
-			cellT{"txn", kit.Pick(rng, []string{"above-chunk", "near-max"}), "plain-write-chunked"},
-			cellT{"txn", kit.Pick(rng, []string{"small", "multi-chunk"}), "other-txn-chunked"},
+			cellT{kind: "txn", size: "above-chunk", inval: "same-value"},
+			cellT{kind: "txn", size: kit.Pick(rng, []string{"small", "below-chunk"}), inval: "plain-write-chunked"},
+			cellT{kind: "txn", size: kit.Pick(rng, []string{"above-chunk", "near-max"}), inval: "plain-write-chunked"},
+			cellT{kind: "txn", size: kit.Pick(rng, []string{"small", "multi-chunk"}), inval: "other-txn-chunked"},
 		)
 		for _, sz := range []string{"small", "below-chunk", "above-chunk", "near-max", "over-max"} {
-			cells = append(cells, cellT{"plain", sz, ""})
+			cells = append(cells, cellT{kind: "plain", size: sz})
+		}
+		// read-only transactions around a write transaction, every relative position
+		whens := []string{"before-writes", "between-writes", "after-writes", "after-T-commit"}
+		patterns := []string{"C+U", "U+C", "U+U", "C", "C+U+U"}
+		for _, order := range []string{"T-then-R", "R-then-T"} {
+			for _, fin := range []string{"commit", "rollback"} {
+				for _, when := range whens {
+					for _, pat := range patterns {
+						cells = append(cells, cellT{kind: "ro", ro: [4]string{order, fin, when, pat}})
+					}
+				}
+			}
+		}
+		for k := 0; k < 8; k++ {
+			cells = append(cells, cellT{kind: "ro", ro: [4]string{[]string{"T-write-R", "R-write-T"}[k%2], []string{"commit", "rollback"}[k/2%2], kit.Pick(rng, whens), kit.Pick(rng, patterns)}})
 		}
 		rng.Shuffle(len(cells), func(i, j int) { cells[i], cells[j] = cells[j], cells[i] })
 		okAll := true
 		for no, c := range cells {
-			if c.kind == "txn" {
+			switch c.kind {
+			case "txn":
 				okAll = s.txnCell(no, c.size, c.inval)
-			} else {
+			case "ro":
+				okAll = s.roCell(no, c.ro[0], c.ro[1], c.ro[2], c.ro[3])
+			default:
 				okAll = s.plainCell(no, c.size)
 			}
 			if !okAll {
@@ -3067,9 +3871,21 @@ func TestVerif_C09_LeaderSizes(t *testing.T) {
 		} else if len(ref.Batches) > 1 {
 			refTo = ref.Batches[len(ref.Batches)-2][1]
 		}
+		probes := 0
 		for _, c := range mismatches {
 			cmd := byFinal[c.After]
 			w := map[string]any{"call": c, "entry": cmd, "log_around": c09Around(l, c.Before, c.After)}
+			if c.After > refTo && probes < 8 {
+				// the reference replica stopped earlier (it is followed up to its first deviation only):
+				// ask a fresh replica that applies the leader's log one entry per batch
+				probes++
+				if v := c09ReplicaVerdict(env, l, c.After); v == c.Truth {
+					r.Violate(c09ClassLeaderVerdict, caseID+"leader", fmt.Sprintf("transaction %s (log entries %d..%d, %d chunk(s), %d bytes, start index %d): the leader's API returned %q to the client, but a replica that applies the leader's log one entry at a time reaches %q, which is also what the serial reference says; the leader's own bucket after the call: %s", c.Cell, cmd.First, cmd.Final, cmd.NChunks, cmd.Bytes, cmd.Start, c.Client, c.Truth, c.Leader), w)
+					continue
+				} else {
+					w["replica_applying_one_entry_per_batch"] = v
+				}
+			}
 			if c.After <= refTo {
 				r.Violate(c09ClassLeaderVerdict, caseID+"leader", fmt.Sprintf("transaction %s (log entries %d..%d, %d chunk(s), %d bytes, start index %d): the leader's API returned %q to the client, but the replica that replays the leader's log reaches %q, which is also what the serial reference says; the leader's own bucket after the call: %s", c.Cell, cmd.First, cmd.Final, cmd.NChunks, cmd.Bytes, cmd.Start, c.Client, c.Truth, c.Leader), w)
 			} else {
@@ -3096,6 +3912,13 @@ func TestVerif_C09_LeaderSizes(t *testing.T) {
 		req("client_txn_conflict:read-set-"+iv, 1)
 	}
 	req("client_txn_commit:read-set-none", 5)
+	req("client_txn_commit:read-set-untouched-while-read-only-txn-around", 16)
+	req("client_txn_conflict:read-set-changed-while-read-only-txn-around", 64)
+	req("ro_txn_commit", 40)
+	req("ro_txn_rollback", 40)
+	req("ro_txn_same_start_index_as_open_write_txn", 80)
+	req("ro_txn_finished_while_write_txn_open_after_2_entries", 20)
+	req("ro_txn_reads_compared_with_state_at_begin", 600)
 	req("client_txn_commit:read-set-same-value", 1)
 	req("client_chunked_txn_commit", 4)
 	req("client_chunked_txn_conflict", 9)
